@@ -888,6 +888,11 @@ class EnumInstance(LazyValueWrapper):
     def name(self):
         return ValueName(self, self._name.tree_name)
 
+    @property
+    def parent_context(self):
+        # An enum member is defined in the body of its class.
+        return self._name.parent_context
+
     def _get_wrapped_value(self):
         n = self._name.string_name
         if n.startswith('__') and n.endswith('__') or self._name.api_type == 'function':
